@@ -136,13 +136,12 @@ var pipeOpNames = [...]string{"WriteBytes", "Reserve", "WriteByte", "WriteString
 	"exhaustion", "OpenStream", "census", "Close"}
 
 const (
-	pipeFAlias     = 1 << iota // result aliases share memory
-	pipeFCross                 // crossed a slice boundary
-	pipeFSocket                // message went (or stream is) on the socket
-	pipeFMulti                 // flushed chain had >= 2 slices
-	pipeFSynced                // executed after logical quiescence
-	pipeFSwapped               // ReleaseReadAndReuse really swapped the buffers
-	pipeFHeapAlias             // result aliases a socket-carried (heap) slice
+	pipeFAlias   = 1 << iota // result aliases share memory
+	pipeFCross               // crossed a slice boundary
+	pipeFSocket              // message went (or stream is) on the socket
+	pipeFMulti               // flushed chain had >= 2 slices
+	pipeFSynced              // executed after logical quiescence
+	pipeFSwapped             // ReleaseReadAndReuse really swapped the buffers
 )
 
 type pipeOp struct {
@@ -158,7 +157,7 @@ func (o pipeOp) String() string {
 		dir = "s>c"
 	}
 	fl := ""
-	for i, n := range []string{"alias", "cross", "socket", "multi", "synced", "swapped", "heapalias"} {
+	for i, n := range []string{"alias", "cross", "socket", "multi", "synced", "swapped"} {
 		if o.F&(1<<uint(i)) != 0 {
 			fl += " " + n
 		}
@@ -218,7 +217,6 @@ type pipeStats struct {
 	multiSlice    int64
 	readCross     int64
 	aliasShm      int64
-	aliasHeap     int64
 	copies        int64
 	peeks         int64
 	zeroOps       int64
@@ -1038,8 +1036,8 @@ func (e *pipeExec) doWrite(s *pipeStream, d int, kind int, n int) {
 		}
 		k, err := W.Write(buf)
 		if err != nil || k != n {
-			if e.p.client.IsClosed() || e.p.server.IsClosed() {
-				e.inconclusive("Stream.Write failed with %v, session closed", err)
+			if e.p.client.IsClosed() || e.p.server.IsClosed() || err == ErrQueueFull || err == ErrConnectionWriteTimeout {
+				e.inconclusive("Stream.Write failed with %v (environment)", err)
 			}
 			e.violate("Stream.Write(%d) on stream %d dir %d returned (%d, %v)", n, s.n, d, k, err)
 		}
